@@ -35,7 +35,7 @@ SHARD_WATCHDOG = {"quick": 1500, "thorough": 10800}
 
 
 def gen_cases(tier, seed):
-    k = 1 if tier == "quick" else 20
+    k = 1 if tier == "quick" else 80
     cases = [{"kind": "cal", "i": i, "seed": seed} for i in range(96 * k)]
     cases += [{"kind": "tuple", "i": i, "seed": seed} for i in range(32 * k)]
     cases += [{"kind": "conv", "i": i, "seed": seed} for i in range(6 * k)]
